@@ -389,6 +389,9 @@ func (q *c12Query) String() string {
 	case "verify-remember", "verifypartial":
 		return fmt.Sprintf("%s(%s, %s)", q.Kind, hashesStr(q.Hashes), proofStr(q.Proof))
 	case "prove", "leafpos", "leafposs":
+		if len(q.Hashes) > 12 {
+			return fmt.Sprintf("%s(%d hashes: %s ...)", q.Kind, len(q.Hashes), hashesStr(q.Hashes[:6]))
+		}
 		return fmt.Sprintf("%s(%s)", q.Kind, hashesStr(q.Hashes))
 	case "verify":
 		return fmt.Sprintf("verify(%s, %s)", hashesStr(q.Hashes), proofStr(q.Proof))
@@ -451,7 +454,11 @@ func c12MkQuery(rng *rand.Rand, p *c12Plan, kind string, j int) *c12Query {
 	q := &c12Query{Kind: kind, J: j}
 	switch kind {
 	case "prove":
-		q.Hashes = pickTracked(rng, r, 1+rng.Intn(4))
+		n := 1 + rng.Intn(4)
+		if rng.Intn(3) == 0 {
+			n = 1 << 20 // every tracked leaf: a long request
+		}
+		q.Hashes = pickTracked(rng, r, n)
 		if q.Hashes == nil {
 			q.Kind = "roots"
 		}
@@ -483,6 +490,15 @@ func c12MkQuery(rng *rand.Rand, p *c12Plan, kind string, j int) *c12Query {
 			default:
 				q.Hashes = append(q.Hashes, rm.FreshHash(0xC12, uint64(rng.Intn(1000))))
 			}
+		}
+		if kind == "leafposs" && rng.Intn(2) == 0 {
+			// a long request (every leaf ever added, in random order, padded with unknown hashes to
+			// 150-260 entries): an implementation that answers it piecewise can straddle a block
+			q.Hashes = append([]Hash(nil), r.M.Leaves...)
+			for len(q.Hashes) < 150+rng.Intn(110) {
+				q.Hashes = append(q.Hashes, rm.FreshHash(0xC12, uint64(rng.Intn(1000))))
+			}
+			rng.Shuffle(len(q.Hashes), func(i, j int) { q.Hashes[i], q.Hashes[j] = q.Hashes[j], q.Hashes[i] })
 		}
 	case "gethash":
 		top := uint64(1)<<(r.F.H+1) - 2
